@@ -68,6 +68,11 @@ def fixed_cases():
     mk("f_muted_no_r", 3, {1: 1, 2: 1, 3: 2, 4: 2, 5: 3, 6: 3},
        ["att 1 me 0", "att 3 me 0", "att 5 me 0", "new 2 1", "given 2 g1 2 45", "given 2 g1 3 39", "pub 2 g1", "note 2 g1 kp 0",
         "delmsg 2 g1 1", "att 4 g1 0", "note 4 g1 kp 0", "note 2 g1 kp 0", "unloadall"], "rm")
+    # findings/C10.md #5 and #6: a deleted p2p subscription re-created by the OTHER party
+    mk("f_p2p_resub_by_partner", 2, {1: 1, 2: 1, 3: 2, 4: 2},
+       ["att 1 me 0", "att 3 me 0", "att 2 p2 0", "unsub 2 p2", "unloadall", "att 4 p1 0", "unloadall"], "rm")
+    mk("f_p2p_reinvite", 2, {1: 1, 2: 1, 3: 2, 4: 2},
+       ["att 1 me 0", "att 3 me 0", "att 2 p2 0", "att 4 p1 0", "unsub 2 p2", "given 4 p1 1 31", "unloadall"], "rm")
     return res
 
 
@@ -407,11 +412,17 @@ def monitor(sc, views):
     """C10 evaluated on the implementation's trace.  -> [(law, op index, detail)]"""
     res = []
     had_bkg = set()
+    recreated = set()   # p2p topics in which a deleted subscription was re-created by the OTHER party's request
     prev = None
     for k, v in enumerate(views):
         kind, args = sc.ops[k]
         if kind in ("att", "new") and len(args) > 2 and str(args[2]) == "1":
             had_bkg.add(sc.sessions[int(args[0])])
+        if kind in ("att", "given") and prev is not None:
+            actor = sc.sessions[int(args[0])]
+            for (tk, u), r in v.rows.items():
+                if tk[0] == "p" and u != actor and not r["deleted"] and prev.rows.get((tk, u), {}).get("deleted"):
+                    recreated.add(tk)
         # ---- online count = attached foreground sessions, never negative
         for tk, t in v.topics.items():
             if tk[0] == "m":
@@ -480,6 +491,8 @@ def monitor(sc, views):
                         law = "converges-unload-race"
                     elif had_bkg:   # any background session so far (e.g. a group whose only attached session is background)
                         law = "converges-background-session"
+                    elif tk[0] == "p" and tk in recreated:
+                        law = "converges-p2p-resubscribed-by-partner"
                     elif tk[0] == "p" and en is False:
                         law = "converges-p2p-contact-left-disabled"
                     else:
@@ -543,7 +556,7 @@ def run(ctx):
         for prof, share in (("fg", 0.7), ("bkg", 0.15), ("race", 0.15)):
             for i in range(int(total * share)):
                 scns.append(gen_scn(ctx.rng, "%s%d" % (prof, i), prof))
-        for i in range(260 if quick else 4000):
+        for i in range(240 if quick else 4000):
             scns.append(gen_rm(ctx.rng, "rm%d" % i))
     t0 = time.time()
     rc, impl, log = run_impl(ctx, scns)
@@ -646,9 +659,11 @@ def run(ctx):
             "this code base sets it for ordinary sessions); unload1/unload2 replay one legal schedule of handleTopicTimeout by hand",
             "harness/overlay/server/db/memverif: in-memory adapter (store contract modelled, not verified)",
             "tools/props/c10.py monitors: python restatement of C10 on the implementation's dumps",
-            "model scope (coq/Sys/Pres.v): users with default access JRWPAS, groups with defacs JRWPS, what in {on, off, ?unkn, ?none, gone, msg}; "
-            "the acs/upd/ua/read/recv/del/tags notifications go through the same filter functions (modelled, theorem c10_no_leak covers every "
-            "`what`) but their emission sites are not modelled; no channels, no cluster/proxy sessions, no 'me' self-mute, no p2p unsubscribe; "
+            "model scope (coq/Sys/Pres.v): users with default access JRWPAS, groups with defacs JRWPS, {pres} what in {on, off, ?unkn, ?none, "
+            "gone, msg, del, read, recv}, {info} what in {read, recv, kp}; the acs/upd/ua/tags notifications go through the same filter "
+            "functions (modelled, theorem c10_no_leak covers every `what`) but their emission sites are not modelled; requests the model "
+            "answers with `unmodelled` (comparison of that history stops there, monitors continue): attach to an unloaded p2p topic with a "
+            "deleted side, {set sub user} re-inviting a deleted p2p party; no channels, no cluster/proxy sessions, no 'me' self-mute; "
             "handlers atomic; LOSSLESS NETWORK: no hub/topic queue overflow (hub.go select-default drops excluded by hypothesis)"],
     })
     ctx.finish(extra_assumptions=["lossless network: no queue of hub.routeSrv / Topic.serverMsg overflows",
